@@ -1041,7 +1041,7 @@ impl Hist {
                     format!("{} {} {}", r.pick(&[0u64, 1, 100, 300, 5000, 9999, 10000]), r.pick(&[0u64, 1, 5000, 1_000_000, u64::MAX]), b(r.chance(1, 2)))
                 };
                 let (fa, fb) = (fee(r), fee(r));
-                let auth = r.pick(&[0u8, 0, 0, 0, 0, 0, 0, 1, 2, 3, 4, 5]);
+                let auth = r.pick(&[0u8, 0, 0, 0, 0, 0, 0, 1, 2, 3, 4, 5, 6]);
                 format!("H xliq {} {} {} {} {} {} {} {}", ver, id, b(inc), liq, r.pick(&[0u8, 0, 1, 2]), fa, fb, auth)
             }
             45 => if r.chance(1, 4) { format!("H xsub grid 0 {} 0", id) } else { format!("H xsub {} {} {} {}", r.pick(&["swap", "swap", "swap", "liq", "liq", "dec", "dec", "liqt", "liqt", "liq1", "dec1", "repo", "repo"]), r.below(19), id, if r.chance(1, 2) { 0 } else { 1 + r.below(7) }) },
@@ -1107,7 +1107,7 @@ impl Hist {
                     2 => (0, price.saturating_sub(1)),
                     _ => (0u128, u128::MAX),
                 };
-                let auth = r.pick(&[0u8, 0, 0, 0, 0, 0, 0, 1, 2, 3, 4, 5]);
+                let auth = r.pick(&[0u8, 0, 0, 0, 0, 0, 0, 1, 2, 3, 4, 5, 6]);
                 format!("H xliqt {} {} {} {} {} {} {} {}", id, amt(r), amt(r), minp, maxp, fa, fb, auth)
             }
             48 | 53 | 54 => {
@@ -1147,7 +1147,7 @@ impl Hist {
                     3 => p.liquidity.saturating_mul(2).max(1),
                     _ => r.log_u128(70).max(1),
                 };
-                let auth = r.pick(&[0u8, 0, 0, 0, 0, 0, 0, 1, 2, 3, 4, 5]);
+                let auth = r.pick(&[0u8, 0, 0, 0, 0, 0, 0, 1, 2, 3, 4, 5, 6]);
                 format!("H xrepo {} {} {} {} {} {} {} {}", id, nlo, nhi, new_liq, r.pick(&[0u8, 0, 1, 2, 3, 4, 5]), fa, fb, auth)
             }
             49 if r.chance(1, 2) => {
